@@ -84,6 +84,7 @@ func (this *Hnsw) Insert(id uuid.UUID, value math.Vector, metadata Metadata, ver
 		if err := this.storeVertex(vertex); err != nil {
 			return err
 		}
+		verifYield("insert.beforeFirstEntrypointCAS")
 		if atomic.CompareAndSwapPointer(&this.entrypoint, nil, unsafe.Pointer(vertex)) {
 			return nil
 		}
